@@ -7,13 +7,13 @@ def H(s):
 def ctx(op, owner):
     return '{| c_caller := %s; c_owner := %s; c_now := %d |}' % (H(op['caller']), H(owner), op['now'])
 
-def gop(op, owner):
+def ugop(op, owner):
     k = op['op']
     if k == 'upgrade':     # an upgrade transaction (the protocol accepts it from the owner only): Model/GWUpgrade.v
         return '(inr (GUpgrade %s %s [%s]))' % (ctx(op, owner), H(op['operator']), '; '.join(H(x) for x in op['signers']))
-    return '(inl %s)' % gop0(op, owner)
+    return '(inl %s)' % gop(op, owner)
 
-def gop0(op, owner):
+def gop(op, owner):
     c = ctx(op, owner)
     k = op['op']
     if k == 'approve':
@@ -45,7 +45,7 @@ def expect(res, addr):
 def trace_term(j):
     gw = j['gw']; i = j['init']; owner = i['owner']
     tab = '[%s]' % '; '.join('(%s, %s, %s)' % (H(a), H(b), H(c)) for a, b, c in j['sigtab'])
-    steps = '[%s]' % ';\n   '.join('(%s, %s)' % (gop(s['op'], owner), expect(s['res'], gw)) for s in j['steps'])
+    steps = '[%s]' % ';\n   '.join('(%s, %s)' % (ugop(s['op'], owner), expect(s['res'], gw)) for s in j['steps'])
     return '(ucheck_trace %s %d %d %s %d %s [%s] %s\n  %s)' % (
         tab, i['now'], i['retention'], H(i['domain']), i['min_delay'], H(i['operator']),
         '; '.join(H(s) for s in i['signers']), expect(i['res'], gw), steps)
